@@ -19,9 +19,10 @@ const (
 // Optimizer performs optimization passes on AST
 type Optimizer struct {
 	level       OptimizationLevel
-	constants   map[string]ast.Literal // Track constant values for variables
-	expressions map[string]string      // Track expression -> variable name for CSE
-	copies      map[string]string      // Track variable copies (x = y means copies[x] = y)
+	constants   map[string]ast.Literal     // Track constant values for variables
+	expressions map[string]string          // Track expression -> variable name for CSE
+	copies      map[string]string          // Track variable copies (x = y means copies[x] = y)
+	exprUses    map[string]map[string]bool // Variables read by each tracked CSE expression
 }
 
 // NewOptimizer creates a new optimizer instance
@@ -31,7 +32,42 @@ func NewOptimizer(level OptimizationLevel) *Optimizer {
 		constants:   make(map[string]ast.Literal),
 		expressions: make(map[string]string),
 		copies:      make(map[string]string),
+		exprUses:    make(map[string]map[string]bool),
 	}
+}
+
+// forget drops every fact that an assignment to name makes stale: its own
+// constant/copy entry, copies OF it (y = name no longer holds), and tracked
+// expressions that are stored in it or read it.
+func (o *Optimizer) forget(name string) {
+	delete(o.constants, name)
+	delete(o.copies, name)
+	for target, source := range o.copies {
+		if source == name {
+			delete(o.copies, target)
+		}
+	}
+	for key, holder := range o.expressions {
+		if holder == name || o.exprUses[key][name] {
+			delete(o.expressions, key)
+			delete(o.exprUses, key)
+		}
+	}
+}
+
+// forgetAll applies forget to a set of variables (those assigned somewhere
+// in a block that may or may not have executed).
+func (o *Optimizer) forgetAll(names map[string]bool) {
+	for name := range names {
+		o.forget(name)
+	}
+}
+
+// trackExpr records that target holds the value of the expression with the
+// given CSE key.
+func (o *Optimizer) trackExpr(key, target string, value ast.Expr) {
+	o.expressions[key] = target
+	o.exprUses[key] = getUsedVariables(value)
 }
 
 // OptimizeExpression optimizes an expression
@@ -121,6 +157,7 @@ func (o *Optimizer) OptimizeStatements(stmts []ast.Statement) []ast.Statement {
 		case *ast.AssignStatement:
 			// Optimize the value expression
 			optimizedValue := o.OptimizeExpression(s.Value)
+			o.forget(s.Target) // facts about the old value are stale from here on
 
 			// Copy propagation: track variable-to-variable assignments
 			if varExpr, ok := optimizedValue.(*ast.VariableExpr); ok {
@@ -143,7 +180,7 @@ func (o *Optimizer) OptimizeStatements(stmts []ast.Statement) []ast.Statement {
 							o.copies[s.Target] = existingVar
 						} else {
 							// Track this expression
-							o.expressions[key] = s.Target
+							o.trackExpr(key, s.Target, optimizedValue)
 						}
 					}
 				}
@@ -166,6 +203,7 @@ func (o *Optimizer) OptimizeStatements(stmts []ast.Statement) []ast.Statement {
 		case *ast.ReassignStatement:
 			// Optimize the value expression (same logic as AssignStatement)
 			optimizedValue := o.OptimizeExpression(s.Value)
+			o.forget(s.Target)
 
 			// Copy propagation: track variable-to-variable assignments
 			if varExpr, ok := optimizedValue.(*ast.VariableExpr); ok {
@@ -188,7 +226,7 @@ func (o *Optimizer) OptimizeStatements(stmts []ast.Statement) []ast.Statement {
 							o.copies[s.Target] = existingVar
 						} else {
 							// Track this expression
-							o.expressions[key] = s.Target
+							o.trackExpr(key, s.Target, optimizedValue)
 						}
 					}
 				}
@@ -211,6 +249,7 @@ func (o *Optimizer) OptimizeStatements(stmts []ast.Statement) []ast.Statement {
 		case ast.ReassignStatement:
 			// Same as *ast.ReassignStatement
 			optimizedValue := o.OptimizeExpression(s.Value)
+			o.forget(s.Target)
 
 			if varExpr, ok := optimizedValue.(*ast.VariableExpr); ok {
 				o.copies[s.Target] = varExpr.Name
@@ -225,7 +264,7 @@ func (o *Optimizer) OptimizeStatements(stmts []ast.Statement) []ast.Statement {
 							optimizedValue = &ast.VariableExpr{Name: existingVar}
 							o.copies[s.Target] = existingVar
 						} else {
-							o.expressions[key] = s.Target
+							o.trackExpr(key, s.Target, optimizedValue)
 						}
 					}
 				}
@@ -269,11 +308,20 @@ func (o *Optimizer) OptimizeStatements(stmts []ast.Statement) []ast.Statement {
 				}
 			}
 
-			// Not a constant condition - optimize both branches
+			// Not a constant condition - optimize both branches. Only one of
+			// them runs: what the then-branch assigns is unknown in the
+			// else-branch, and what either assigns is unknown afterwards.
+			thenModified := getModifiedVariables(s.ThenBlock)
+			elseModified := getModifiedVariables(s.ElseBlock)
+			thenBlock := o.OptimizeStatements(s.ThenBlock)
+			o.forgetAll(thenModified)
+			elseBlock := o.OptimizeStatements(s.ElseBlock)
+			o.forgetAll(thenModified)
+			o.forgetAll(elseModified)
 			optimized := &ast.IfStatement{
 				Condition: condition,
-				ThenBlock: o.OptimizeStatements(s.ThenBlock),
-				ElseBlock: o.OptimizeStatements(s.ElseBlock),
+				ThenBlock: thenBlock,
+				ElseBlock: elseBlock,
 			}
 			result = append(result, optimized)
 
@@ -325,6 +373,9 @@ func (o *Optimizer) OptimizeStatements(stmts []ast.Statement) []ast.Statement {
 				Body:      o.OptimizeStatements(loopBody),
 			}
 			result = append(result, optimized)
+			// The body may run zero times or many: nothing it establishes
+			// about the variables it assigns holds after the loop.
+			o.forgetAll(modifiedVars)
 
 		case *ast.ForStatement:
 			// Invalidate constants for any variables modified in the for loop body
